@@ -57,6 +57,23 @@ CLAIMED = {
             "stub rows/tags exposing what the kernels read; pandas/df_util/HedString glue swapped for pass-throughs; "
             "integer time values (float() identity on ints); histories of <=3-4 rows; Delay shifting and "
             "needs_sorting are pandas and outside."),
+    "C06": ("3/C06",
+            "Bounded, solver-decided at cell and row level: the real value/category handlers, replace_ref (regex sub "
+            "with callback), the transform / curly-brace / row-join code of BaseInput run on a small frame stub with "
+            "symbolic cell texts and template surroundings, against a reference assembler and an independent list "
+            "grammar (a removed reference must leave a delimiter-well-formed annotation); repeated assembly agrees "
+            "and neither the frame nor the sidecar dict changes.",
+            "frame stub gives df[...]/transform/apply the pandas meaning for lists of str; fixed 6-column two-row "
+            "file shape; pieces <=2-4 chars; pandas dtype/index glue and file reading are outside."),
+    "C10": ("3/C10",
+            "Bounded, solver-decided inductive step: from an arbitrary open-scope state (two other names, each open or "
+            "not, keys case-folded) one Onset/Offset/Inset marker with any symbolic name must be judged and must "
+            "update the state exactly as the reference open-set semantics says, other names untouched and the "
+            "invariant preserved - which covers histories of any length within the name-length bound; plus time "
+            "points with up to two markers (same name twice => one error per extra use, no state change) and the "
+            "structural onset-group rules on 324 fixed shapes over the mini schema.",
+            "stub tags / stub time-point strings; message text of three errors muted (formats symbolic names); names "
+            "<=2 chars quick, <=4 thorough; Delay shifting, equal-onset merging and row mapping are pandas and outside."),
 }
 
 NOT_APPLICABLE = {
